@@ -7,6 +7,8 @@
   that keep the meaning (renamed locals, `or` operands swapped, the branches exchanged under a negated test).
 -/
 import MofunModel.Proofs.CodeLemmas
+import MofunModel.Model.Lattice
+import Mathlib.Tactic.Ring
 
 namespace Mofun.C17Code
 open Mofun Mofun.Generated Mofun.CodeLemmas
@@ -25,5 +27,23 @@ theorem maxBondLength_eq : Generated.Code.maxBondLength = Mofun.maxBondLength :=
 example : Generated.Code.maxBondLength "C" "H" = some (38 / 25) := by decide +kernel
 /-- and it raises where the code raises -/
 example : Generated.Code.maxBondLength "C" "Xx" = none := by decide +kernel
+
+/-! ### uc_neighbor_offsets (fourth batch) -/
+
+/-- for ALL cells: the translated `uc_neighbor_offsets` — `np.meshgrid([-1,0,1],[-1,0,1],[-1,0,1])` with numpy's `xy`
+    indexing, `.T.reshape(-1, 1, 3)`, then `np.matmul(uc_vectors.T, mult[0])` for each multiplier, all expanded over the
+    3x3 cell — is the model's `ucOffsets` (Model/Lattice.lean): the 27 lattice vectors `i·A + j·B + k·C` in the order
+    z slowest, then x, then y.  The image order of the bond detector (C17) and of the pattern search (C01–C03) is this one. -/
+theorem ucNeighborOffsets_eq (c : Mat3) : Generated.Code.ucNeighborOffsets c = ucOffsets c := by
+  unfold Generated.Code.ucNeighborOffsets ucOffsets ucMultipliers pm1
+  simp only [List.flatMap_cons, List.flatMap_nil, List.map_cons, List.map_nil, List.append_nil, List.cons_append, List.nil_append,
+    Mat3.lattice, Vec3.add, Vec3.smul]
+  simp only [List.cons.injEq, Vec3.mk.injEq, and_true]
+  refine ⟨?_, ?_, ?_, ?_, ?_, ?_, ?_, ?_, ?_, ?_, ?_, ?_, ?_, ?_, ?_, ?_, ?_, ?_, ?_, ?_, ?_, ?_, ?_, ?_, ?_, ?_, ?_⟩ <;>
+    refine ⟨?_, ?_, ?_⟩ <;> push_cast <;> ring
+
+/-- the offsets `detect_bonds` adds to atom 1 when there is a cell are the translated ones -/
+theorem bondOffsets_some (c : Mat3) : bondOffsets (some c) = Generated.Code.ucNeighborOffsets c := by
+  rw [ucNeighborOffsets_eq]; rfl
 
 end Mofun.C17Code
